@@ -7,7 +7,7 @@ from ..dataflow import DefUse
 from .. import events as E
 from .. import types as T
 from ..guards import facts
-from ._h_E import Flow, arg, argn, nargs, return_cases, leaf_polarity, is_const, nfacts, \
+from ._h_E import decide, anchors_of, analysed_separately, cname, calls_E, nodes_calling_E, Flow, arg, argn, nargs, return_cases, leaf_polarity, is_const, nfacts, \
     mutation_nodes_deep, own_helper, args_by_params
 
 EXPLANATION = (
@@ -25,14 +25,15 @@ RECORD_ACTIONS = ("BulkAddRecord", "BulkRemoveRecord", "BulkUpdateRecord", "Repl
 
 
 def check(run, repo, tier):
-  w = World(repo)
-  r1_invalidate(run, w)
-  r2_removal_siblings(run, w)
-  r3_read_requires_dependency(run, w)
-  r4_relations(run, w)
-  r5_reference_index(run, w)
-  r6_lookup_index(run, w)
-  r7_column_lifecycle(run, w)
+  # each rule is decided on the code as written; when it is not satisfied there, it is asked again
+  # on the view with private helpers inlined (see _h_E.decide), so statements moved into a new
+  # helper keep their place
+  import os
+  _HERE = os.path.dirname(os.path.abspath(__file__))
+  decide(run, repo, [r1_invalidate, r2_removal_siblings, r3_read_requires_dependency, r4_relations, r5_reference_index, r6_lookup_index, r7_column_lifecycle, r6_reset_all_keys],
+         anchors_of(os.path.join(_HERE, "c05.py"), os.path.join(_HERE, "_extra.py"), os.path.join(_HERE, "_h_E.py"), os.path.join(_HERE, "../events.py")))
+
+def r6_reset_all_keys(run, w):
   from ._extra import c13_reset_all_keys
   run.guard(c13_reset_all_keys, run, w, "C05-R6")
 
@@ -49,7 +50,7 @@ def r1_invalidate(run, w):
     fn = w.fn("docactions.DocActions." + an)
     cfg = fn.cfg
     muts = mutation_nodes_deep(w, fn, exclude=set(w.doc_action_names()))
-    inv = fn.nodes_calling(_invalidating)
+    inv = nodes_calling_E(fn, _invalidating)
     bad = None
     for m in sorted(muts):
       if m in inv:
@@ -64,8 +65,8 @@ def r1_invalidate(run, w):
            witness=wit, fi=fn.fi, node=cfg.nodes[bad].stmt if bad is not None else None)
   # add_records / load_table do end in invalidation
   ar = w.fn("engine.Engine.add_records")
-  inv = ar.nodes_calling(E.is_engine_call("invalidate_records")) | \
-      ar.nodes_calling(lambda c, nm, f: nm == "self.invalidate_records")
+  inv = nodes_calling_E(ar, E.is_engine_call("invalidate_records")) | \
+      nodes_calling_E(ar, lambda c, nm, f: nm == "self.invalidate_records")
   ok = bool(inv) and ar.cfg.dominated_by(ar.cfg.exit.id, inv)
   aflow = Flow(ar)
   ps = ar.fi.params()
@@ -75,11 +76,11 @@ def r1_invalidate(run, w):
     return a0 is not None and a1 is not None and aflow.itext(a0, n.id, stop=ps) == ps[1] and \
         aflow.itext(a1, n.id, stop=ps) == ps[2] and argn(w, ar, c, 2) is None and \
         not any(k.arg == "col_ids" for k in c.keywords)
-  ok_args = any(whole_rows(n, c) for (n, c, nm) in ar.calls() if nm == "self.invalidate_records")
+  ok_args = any(whole_rows(n, c) for (n, c, nm) in calls_E(ar) if nm == "self.invalidate_records")
   run.ob(R1, ar.qualname, "self.invalidate_records(table_id, row_ids)",
          "adding records invalidates every column of the new rows", ok and ok_args, fi=ar.fi)
   lt = w.fn("engine.Engine.load_table")
-  adds = lt.nodes_calling(lambda c, nm, f: nm == "self.add_records")
+  adds = nodes_calling_E(lt, lambda c, nm, f: nm == "self.add_records")
   run.ob(R1, lt.qualname, "self.add_records(...)", "loading a table goes through add_records",
          bool(adds) and lt.cfg.dominated_by(lt.cfg.exit.id, adds), fi=lt.fi)
   # BulkUpdateRecord invalidates exactly the rows and columns it wrote
@@ -87,7 +88,7 @@ def r1_invalidate(run, w):
   bflow = Flow(bu)
   ps = bu.fi.params()
   ok = False
-  for (n, c, nm) in bu.calls():
+  for (n, c, nm) in calls_E(bu):
     if E.is_engine_call("invalidate_records")(c, nm, bu):
       cols = argn(w, bu, c, 2) or arg(c, None, "col_ids")
       rows = argn(w, bu, c, 1) or arg(c, None, "row_ids")
@@ -101,7 +102,7 @@ def r1_invalidate(run, w):
   br = w.fn("docactions.DocActions.BulkRemoveRecord")
   rflow = Flow(br)
   ok = False
-  for (n, c, nm) in br.calls():
+  for (n, c, nm) in calls_E(br):
     if E.is_engine_call("invalidate_records")(c, nm, br):
       a0 = argn(w, br, c, 0)
       ok = nargs(c) == 2 and a0 is not None and argn(w, br, c, 1) is not None and \
@@ -115,7 +116,7 @@ def _unset_all_columns_loop(fn, flow, depth=1):
   loop)] for every `<col>.unset(<row>)` whose receiver is the variable of a loop over the values of
   a table's column dict and whose argument is the variable of a loop over some rows."""
   out = []
-  for (n, c, nm) in fn.calls():
+  for (n, c, nm) in calls_E(fn):
     if not (isinstance(c.func, ast.Attribute) and c.func.attr == "unset" and
             len(c.args) + len(c.keywords) == 1):
       continue
@@ -136,7 +137,7 @@ def _unset_all_columns_loop(fn, flow, depth=1):
   if depth > 0:
     # the loop may have been extracted into a helper of the same class taking the rows
     w = fn.world
-    for (n, c, nm) in fn.calls():
+    for (n, c, nm) in calls_E(fn):
       h = own_helper(w, fn, c, exclude=set(w.doc_action_names()))
       if h is None:
         continue
@@ -165,7 +166,7 @@ def r2_removal_siblings(run, w):
            "every column (lookup maps and reference columns included) forgets the rows that "
            "disappear, unconditionally", bool(good), fi=fn.fi)
     inv_ok = False
-    for (n, c, nm) in fn.calls():
+    for (n, c, nm) in calls_E(fn):
       if E.is_engine_call("invalidate_records")(c, nm, fn) and nargs(c) == 2:
         a1 = argn(w, fn, c, 1)
         if a1 is not None and any(flow.same_value(a1, n.id, rows, rn) for (rows, rn) in good):
@@ -189,7 +190,7 @@ def r2_removal_siblings(run, w):
   ru = w.fn("engine.Engine.rebuild_usercode")
   ok = any(nm == "self._update_table_model" and len(c.args) == 2 and
            isinstance(c.args[1], ast.Constant) and c.args[1].value is None
-           for (n, c, nm) in ru.calls())
+           for (n, c, nm) in calls_E(ru))
   run.ob(R2, ru.qualname, "self._update_table_model(table, None) for tables that are gone",
          "a removed table has all its columns deleted and invalidated (RemoveTable's equivalent "
          "of unsetting rows)", ok, fi=ru.fi)
@@ -207,8 +208,11 @@ def r3_read_requires_dependency(run, w):
   R3 = run.rule("C05-R3", "every formula-visible cell read (get_cell_value) is dominated by "
                 "_use_node for that column in the same function", floor=3)
   for fi in w.repo.all_functions():
+    if not analysed_separately(w, fi):
+      continue
     fn = w.fn_of(fi)
-    sites = [(n, c) for (n, c, nm) in fn.calls() if isinstance(c.func, ast.Attribute) and
+    fi = fn.fi
+    sites = [(n, c) for (n, c, nm) in calls_E(fn) if isinstance(c.func, ast.Attribute) and
              c.func.attr == "get_cell_value"]
     if not sites:
       continue
@@ -223,7 +227,7 @@ def r3_read_requires_dependency(run, w):
       colvar = text(c.func.value)
       flow = Flow(fn)
       uses = set()
-      for (m, c2, nm) in fn.calls():
+      for (m, c2, nm) in calls_E(fn):
         a0n = argn(w, fn, c2, 0) if endswith(nm, "_use_node") else None
         if a0n is not None:
           a0 = flow.itext(a0n, m.id)
@@ -249,7 +253,7 @@ def r3_read_requires_dependency(run, w):
   flow = Flow(fn)
   rec = fn.fi.params()[0]
   ok = False
-  for (n, c, nm) in fn.calls():
+  for (n, c, nm) in calls_E(fn):
     if endswith(nm, "_use_node") and nargs(c) == 3:
       a1, a2 = argn(w, fn, c, 1), argn(w, fn, c, 2)
       ok = a1 is not None and a2 is not None and \
@@ -263,8 +267,8 @@ def r3_read_requires_dependency(run, w):
   cfg = un.cfg
   flow = Flow(un)
   ups = un.fi.params()
-  adds = [(n, c) for (n, c, nm) in un.calls() if endswith(nm, "dep_graph.add_edge")]
-  recomp = un.nodes_calling(lambda c, nm, f: nm == "self._recompute")
+  adds = [(n, c) for (n, c, nm) in calls_E(un) if endswith(nm, "dep_graph.add_edge")]
+  recomp = nodes_calling_E(un, lambda c, nm, f: nm == "self._recompute")
   ok = bool(adds) and bool(recomp)
   shape = bool(adds)
   for (n, c) in adds:
@@ -413,10 +417,10 @@ def r5_reference_index(run, w):
   fn = w.fn("column.BaseReferenceColumn.set")
   cfg = fn.cfg
   row = fn.fi.params()[1]
-  base_set = {n.id for (n, c, nm) in fn.calls() if isinstance(c.func, ast.Attribute) and
+  base_set = {n.id for (n, c, nm) in calls_E(fn) if isinstance(c.func, ast.Attribute) and
               c.func.attr == "set" and isinstance(c.func.value, ast.Call) and
               dotted(c.func.value.func) == "super"}
-  upd = [(n, c) for (n, c, nm) in fn.calls() if nm == "self._update_references"]
+  upd = [(n, c) for (n, c, nm) in calls_E(fn) if nm == "self._update_references"]
   if not base_set or not upd:
     raise AnalysisError("BaseReferenceColumn.set: base write or _update_references not found")
   flow = Flow(fn)
@@ -444,8 +448,8 @@ def r5_reference_index(run, w):
          all(cfg.postdominated_by(b, {n.id for (n, _) in upd}) for b in base_set), fi=fn.fi)
   ur = w.fn("column.BaseReferenceColumn._update_references")
   ps = ur.fi.params()
-  rem = [c for (n, c, nm) in ur.calls() if endswith(nm, "_relation.remove_reference")]
-  add = [c for (n, c, nm) in ur.calls() if endswith(nm, "_relation.add_reference")]
+  rem = [c for (n, c, nm) in calls_E(ur) if endswith(nm, "_relation.remove_reference")]
+  add = [c for (n, c, nm) in calls_E(ur) if endswith(nm, "_relation.add_reference")]
   uflow = Flow(ur)
   def loop_over(call, var):
     """call(<row param>, r) for r in self._value_iterable(<var>)"""
@@ -465,9 +469,9 @@ def r5_reference_index(run, w):
          ok, fi=ur.fi)
   cp = w.fn("column.BaseReferenceColumn.copy_from_column")
   cfg = cp.cfg
-  clr = cp.nodes_calling(lambda c, nm, f: endswith(nm, "_relation.clear"))
-  reb = cp.nodes_calling(lambda c, nm, f: nm == "self._update_references")
-  base = {n.id for (n, c, nm) in cp.calls() if isinstance(c.func, ast.Attribute) and
+  clr = nodes_calling_E(cp, lambda c, nm, f: endswith(nm, "_relation.clear"))
+  reb = nodes_calling_E(cp, lambda c, nm, f: nm == "self._update_references")
+  base = {n.id for (n, c, nm) in calls_E(cp) if isinstance(c.func, ast.Attribute) and
           c.func.attr == "copy_from_column" and isinstance(c.func.value, ast.Call)}
   ok = bool(clr) and bool(reb) and bool(base) and cfg.dominated_by(cfg.exit.id, clr) and \
       all(cfg.dominated_by(r, clr | base) and cfg.dominated_by(r, base) for r in reb)
@@ -478,7 +482,7 @@ def r5_reference_index(run, w):
   aflow = Flow(ar)
   aps = ar.fi.params()
   ok = False
-  for (n, c, nm) in ar.calls():
+  for (n, c, nm) in calls_E(ar):
     if isinstance(c.func, ast.Attribute) and c.func.attr == "add" and nargs(c) == 1:
       recv = aflow.inline(c.func.value, n.id, stop=aps)
       ok = ok or (aflow.itext(c.args[0], n.id, stop=aps) == aps[1] and
@@ -490,7 +494,7 @@ def r5_reference_index(run, w):
   mflow = Flow(rm)
   mps = rm.fi.params()
   ok = False
-  for (n, c, nm) in rm.calls():
+  for (n, c, nm) in calls_E(rm):
     if isinstance(c.func, ast.Attribute) and c.func.attr in ("discard", "remove") and \
         nargs(c) == 1 and c.args:
       ok = ok or (mflow.itext(c.args[0], n.id, stop=mps) == mps[1] and
@@ -513,15 +517,15 @@ def r6_lookup_index(run, w):
     fn = w.fn(q)
     cfg = fn.cfg
     flow = Flow(fn)
-    ups = [n for (n, c, nm) in fn.calls() if endswith(nm, upd)]
-    inv = [(n, c) for (n, c, nm) in fn.calls()
+    ups = [n for (n, c, nm) in calls_E(fn) if endswith(nm, upd)]
+    inv = [(n, c) for (n, c, nm) in calls_E(fn)
            if endswith(nm, "_relation_tracker.invalidate_affected_keys")]
     ok = len(ups) == 1 and len(inv) == 1 and nargs(inv[0][1]) == 1
     if ok:
       a0 = argn(w, fn, inv[0][1], 0)
       ok = a0 is not None and \
           flow.denotes(a0, inv[0][0].id, lambda x, k: isinstance(x, ast.Call) and
-                       endswith(fn.name(x), upd)) and \
+                       endswith(cname(fn, x), upd)) and \
           cfg.dominated_by(inv[0][0].id, {ups[0].id}) and \
           cfg.dominated_by(cfg.exit.id, {inv[0][0].id})
     run.ob(R6, q, "affected = %s(...); invalidate_affected_keys(affected)" % upd,
@@ -532,7 +536,7 @@ def r6_lookup_index(run, w):
   rec = srt.fi.params()[1]
   ok = False
   n_touch = 0
-  for (n, c, nm) in srt.calls():
+  for (n, c, nm) in calls_E(srt):
     if dotted(c.func) == "getattr" and len(c.args) == 2 and \
         sflow.itext(c.args[0], n.id, stop=(rec,)) == rec:
       n_touch += 1
@@ -546,7 +550,7 @@ def r6_lookup_index(run, w):
   rs = w.fn("lookup.LookupMapColumn._reset_sorted_versions")
   rflow = Flow(rs)
   ok = False
-  for (n, c, nm) in rs.calls():
+  for (n, c, nm) in calls_E(rs):
     if endswith(nm, "sorted_versions.pop") and c.args:
       ok = ok or rflow.itext(c.args[0], n.id, stop=rs.fi.params()) == rs.fi.params()[2]
   run.ob(R6, rs.qualname, "row_ids.sorted_versions.pop(sort_spec, None)",
@@ -554,14 +558,14 @@ def r6_lookup_index(run, w):
   dl = w.fn("lookup.LookupMapColumn._do_lookup_with_sort")
   dflow = Flow(dl)
   ps = dl.fi.params()
-  gets = [(n, c) for (n, c, nm) in dl.calls() if endswith(nm, "sorted_versions.get")]
+  gets = [(n, c) for (n, c, nm) in calls_E(dl) if endswith(nm, "sorted_versions.get")]
   sets = [n for n in dl.cfg.nodes if n.kind == "stmt" and isinstance(n.stmt, ast.Assign) and
           isinstance(n.stmt.targets[0], ast.Subscript) and
           endswith(dl.aliases.dotted(n.stmt.targets[0].value) or "", "sorted_versions")]
   ok = len(gets) == 1 and len(sets) == 1 and bool(gets[0][1].args) and \
       dflow.itext(gets[0][1].args[0], gets[0][0].id, stop=ps) == ps[2] and \
       dflow.itext(sets[0].stmt.targets[0].slice, sets[0].id, stop=ps) == ps[2]
-  srt_calls = [(n, c) for (n, c, nm) in dl.calls() if dotted(c.func) == "sorted"]
+  srt_calls = [(n, c) for (n, c, nm) in calls_E(dl) if dotted(c.func) == "sorted"]
   ok = ok and len(srt_calls) == 1 and any(
     k.arg == "key" and dflow.itext(k.value, srt_calls[0][0].id, stop=ps) == ps[3]
     for k in srt_calls[0][1].keywords)
@@ -582,8 +586,8 @@ def r6_lookup_index(run, w):
   for arg, meths in ((reg.args[2], ("add",)), (reg.args[3], ("discard", "remove"))):
     fn = w.fn("twowaymap." + text(arg))
     cont = fn.fi.params()[0]
-    muts = [(n, c) for (n, c, nm) in fn.calls() if nm in [cont + "." + m for m in meths]]
-    clr = fn.nodes_calling(lambda c, nm, f: nm == cont + ".sorted_versions.clear")
+    muts = [(n, c) for (n, c, nm) in calls_E(fn) if nm in [cont + "." + m for m in meths]]
+    clr = nodes_calling_E(fn, lambda c, nm, f: nm == cont + ".sorted_versions.clear")
     ok = bool(muts) and bool(clr) and all(fn.cfg.postdominated_by(n.id, clr) for (n, c) in muts)
     run.ob(R6, fn.qualname, "%s.%s(value); %s.sorted_versions.clear()" % (cont, meths[0], cont),
            "a cached order never survives a change of the set it orders", ok, fi=fn.fi)
@@ -605,7 +609,7 @@ def r7_column_lifecycle(run, w):
   fn = w.fn("engine.Engine._update_table_model")
   cfg = fn.cfg
   flow = Flow(fn)
-  rebuild = fn.nodes_calling(lambda c, nm, f: endswith(nm, "_rebuild_model"))
+  rebuild = nodes_calling_E(fn, lambda c, nm, f: endswith(nm, "_rebuild_model"))
   def is_old(x, k):
     """snapshot of the table's columns taken before the model is rebuilt"""
     return isinstance(x, ast.Call) and isinstance(x.func, ast.Attribute) and \
@@ -645,7 +649,7 @@ def r7_column_lifecycle(run, w):
          "added and deleted column sets are the two set differences", ok, fi=fn.fi)
   if ok:
     inv_added = False
-    for (n, c, nm) in fn.calls():
+    for (n, c, nm) in calls_E(fn):
       if nm == "self.invalidate_records":
         cols = arg(c, None, "col_ids") or argn(w, fn, c, 2)
         if cols is not None and flow.denotes(cols, n.id, is_added):
@@ -655,7 +659,7 @@ def r7_column_lifecycle(run, w):
     run.ob(R7, fn.qualname, "invalidate_records(table_id, col_ids=added)",
            "new columns and their dependents are computed", inv_added, fi=fn.fi)
     def loop_calls(meth):
-      for (n, c, nm) in fn.calls():
+      for (n, c, nm) in calls_E(fn):
         if nm == "self." + meth and nargs(c) == 1:
           a0 = flow.resolve(argn(w, fn, c, 0), n.id)[0] if argn(w, fn, c, 0) is not None else None
           if isinstance(a0, ast.Subscript) and \
@@ -674,7 +678,7 @@ def r7_column_lifecycle(run, w):
   dcfg = dc.cfg
   want = ["self.invalidate_column", "self.dep_graph.clear_dependencies", "self.recompute_map.pop",
           "self._gone_columns.append"]
-  at = {x: {n.id for (n, c, nm) in dc.calls() if nm == x} for x in want}
+  at = {x: {n.id for (n, c, nm) in calls_E(dc) if nm == x} for x in want}
   ok = all(at[x] and dcfg.dominated_by(dcfg.exit.id, at[x]) for x in want) and \
       all(dcfg.dominated_by(x, at[want[0]]) for x in at[want[1]])
   run.ob(R7, dc.qualname, " -> ".join(w_.split(".")[-1] for w_ in want),
@@ -683,8 +687,8 @@ def r7_column_lifecycle(run, w):
   # created columns are invalidated
   cc = w.fn("table.Table._create_or_update_col")
   cfg = cc.cfg
-  creates = {n.id for (n, c, nm) in cc.calls() if endswith(nm, "create_column")}
-  inv = cc.nodes_calling(lambda c, nm, f: endswith(nm, "_engine.invalidate_column"))
+  creates = {n.id for (n, c, nm) in calls_E(cc) if endswith(nm, "create_column")}
+  inv = nodes_calling_E(cc, lambda c, nm, f: endswith(nm, "_engine.invalidate_column"))
   run.ob(R7, cc.qualname, "col_obj = create_column(...); invalidate_column(col_obj)",
          "a newly created column object starts fully dirty",
          bool(creates) and all(cfg.postdominated_by(c, inv) for c in creates), fi=cc.fi)
